@@ -94,8 +94,12 @@ def enumerated(tier):
     yield {'k': 'race', 'idx': idx}
   # one abort at every line the framework threads reach (first two hits), the
   # record handed to the callbacks is judged for completeness
-  for j in range(0, 1400, 2 if tier == 'quick' else 1):
-    yield {'k': 'abort_sched', 'cover': j}
+  if tier == 'quick':
+    for j in range(700):
+      yield {'k': 'abort_sched', 'cover': j, 'h1': True}    # every line, first hit
+  else:
+    for j in range(1400):
+      yield {'k': 'abort_sched', 'cover': j}
 
 
 def sampled(tier, rng):
@@ -306,6 +310,8 @@ def run_abort_sched(case):
   from vf.props import c04
   abortlab.lab()
   cl = [x for x in c04.cover_list() if x[0][0][0] in ('exec', 'phase')]
+  if case.get('h1'):
+    cl = [x for x in cl if x[0][1] == 1]
   if case['cover'] >= len(cl):
     return {'sig': None, 'violations': [], 'counters': {}, 'evaluations': 0,
             'sample': False}
